@@ -11,7 +11,7 @@ from __future__ import annotations
 import ast
 
 BUILTIN_RULES = ("if", "else", "elif", "if-in-else", "if-in-if-body", "for-range", "for-tuple", "for-list", "for-name",
-                 "for-else-dropped", "augassign", "self-assign", "annassign", "multitarget", "fold-pre", "fold-post")
+                 "for-else", "augassign", "self-assign", "annassign", "multitarget", "fold-pre", "fold-post")
 
 
 def sx(e):
@@ -195,8 +195,7 @@ def compare(model, real, front=None):
 # ----------------------------------------------------------------------------- rewrite forms (correspondence only)
 # One program per rewriting rule / quirk / exception of the pass.  They go through the ast2ast correspondence only:
 # several are rejected later by translate_ast (an `if` nested in the body of an `if` reads `_iftarg<n>` before it is
-# defined), and `for-else` is accepted although the `else` branch is dropped (reported as a candidate defect in
-# docs/notes/C01.md; the oracle stream does not contain it).
+# defined).  (`for … else` is also in the oracle stream of harness/c01.py since the repair 67bd58c.)
 H2 = "def f(a: bool, b: bool, x: Qint[2], y: Qint[2]) -> Qint[2]:\n"
 A2A_FORMS = [
     ("if-in-if-body", H2 + "\tr = x\n\tif a:\n\t\tr = r + 1\n\t\tif b:\n\t\t\tr = 3\n\treturn r"),
